@@ -12,7 +12,7 @@ ops:  ["call", i, [[p, arg], ...]] | ["set", i, p, arg] | ["connect", i, p, arg]
       | ["disconnect", i, p] | ["getref", i, p]
 arg:  ["obj", id] | ["ref", i, p] | ["dict", newid, dictid] | ["bad", k]
 recipe: ["sig", name] | ["sl", recipe, ix] | ["cat", [recipe]] | ["bref", bundle_inst_name, member]
-        | ["nc", name|None] | ["bundle", name] | ["anon", {member: recipe}]
+        | ["nc", name|None] | ["bundle", name] | ["anon", {member: recipe}] | ["pref", i, p]  (inst_i.port_p)
 
 observation after each op:
   acc    : the operation returned normally
@@ -89,6 +89,8 @@ class World:
             return h.Concat(*[self.recipe(p) for p in r[1]])
         if t == "bref":
             return getattr(self.top.get(r[1]), r[2])
+        if t == "pref":
+            return self.ref(r[1], r[2])
         if t == "nc":
             return h.NoConn(name=r[1]) if r[1] is not None else h.NoConn()
         if t == "bundle":
